@@ -11,7 +11,9 @@ Clauses (each (input, clause) pair is one case; the clause name is part of the c
                weights: only when every weight of an edge with an interior endpoint is >= 0; square target:
                triangles whose three uv lie on one side of the square are exempt)
   agree        per-corner output == per-vertex output at every corner, flat_mesh == uv for both storages
-  reject       (non-disk inputs, chi != 1) run() raises
+  reject       (non-disk inputs, chi != 1: annulus, two-holed disk, closed tetrahedron, torus, two components)
+               run() raises deliberately (an IndexError/KeyError/TypeError/... or a crash inside numpy/scipy
+               while computing on the non-disk does not count as a rejection)
 Everything is recomputed from mesh.vertices / mesh.faces with numpy; the library's border extraction,
 laplacian and cotangent code is never called by the oracle.
 """
@@ -231,14 +233,14 @@ def disk_family(seed, thorough):
          ('fan', dict(n=5, flip=1)), ('grid', dict(nu=4, nv=3, jitter=0.1, seed=s + 4, flip=1, perm=s + 12)),
          ('delaunay', dict(npts=20, seed=s + 6, carve=5, flip=1)), ('grid', dict(nu=3, nv=4, ears=2, flip=1)),
          ('cap', dict(rings=1, sectors=5)), ('cap', dict(rings=2, sectors=7, perm=s + 11)), ('cap', dict(rings=3, sectors=11, height=1.5))]
+    rnd = random.Random(seed + 12345)
+    for k in range(40 if thorough else 10):
+        L.append(('delaunay', dict(npts=rnd.randint(6, 90 if thorough else 45), seed=rnd.randrange(10 ** 6), carve=rnd.choice([0, 2, 5, 12, 25]),
+                                    lift=rnd.choice([0.0, 0.0, 0.4, 1.0]), perm=rnd.randrange(1, 10 ** 6), flip=int(k % 3 == 0))))
+    for k in range(25 if thorough else 8):
+        L.append(('grid', dict(nu=rnd.randint(2, 9 if thorough else 6), nv=rnd.randint(2, 9 if thorough else 6), jitter=rnd.choice([0.0, 0.1, 0.25, 0.35]),
+                                seed=rnd.randrange(10 ** 6), ears=rnd.choice([0, 0, 1, 2, 3, 5]), perm=rnd.randrange(0, 10 ** 6), flip=k % 2)))
     if thorough:
-        rnd = random.Random(seed + 12345)
-        for k in range(40):
-            L.append(('delaunay', dict(npts=rnd.randint(6, 90), seed=rnd.randrange(10 ** 6), carve=rnd.choice([0, 2, 5, 12, 25]),
-                                        lift=rnd.choice([0.0, 0.0, 0.4, 1.0]), perm=rnd.randrange(1, 10 ** 6), flip=int(k % 3 == 0))))
-        for k in range(25):
-            L.append(('grid', dict(nu=rnd.randint(2, 9), nv=rnd.randint(2, 9), jitter=rnd.choice([0.0, 0.1, 0.25, 0.35]), seed=rnd.randrange(10 ** 6),
-                                    ears=rnd.choice([0, 0, 1, 2, 3, 5]), perm=rnd.randrange(0, 10 ** 6), flip=k % 2)))
         for n in (8, 10, 11, 12, 14, 15, 16, 17, 21):
             L.append(('fan', dict(n=n, perm=rnd.randrange(10 ** 6), lift=rnd.choice([0.0, 0.7]))))
         for k in range(8):
@@ -489,8 +491,16 @@ def evaluate_reject(fam, params, mode, cotan):
     try:
         t = TutteEmbedding(m, mode, cotan, save_on_corners=False)
         t.run()
-    except Exception:
-        return {'reject': None}, {}
+    except Exception as e:
+        # a rejection is a deliberate raise of the library; an incidental crash deep inside numpy / scipy or an
+        # index / type error while computing on the non-disk does not count
+        import traceback, os
+        last = traceback.extract_tb(e.__traceback__)[-1].filename
+        inside = os.path.abspath(last).startswith(os.path.dirname(os.path.abspath(M.__file__)))
+        if inside and not isinstance(e, (IndexError, KeyError, TypeError, AttributeError, ZeroDivisionError, UnboundLocalError)):
+            return {'reject': None}, {}
+        return {'reject': 'surface with Euler characteristic %d (%d border loops, %d components) is not rejected: run() goes on computing and crashes with %s: %s (in %s)' % (
+            chi, info['n_border_loops'], info['n_components'], type(e).__name__, str(e)[:120], os.path.basename(last))}, {}
     return {'reject': 'run() accepted a surface with Euler characteristic %d (%d border loops, %d components); expected an exception' % (
         chi, info['n_border_loops'], info['n_components'])}, {}
 
